@@ -124,6 +124,10 @@ def gen_case(rng, ens, tier):
         entries.append({"name": next(names), "kind": "exch", "users": []})
     if ens in ("isobaric", "isotension"):
         entries.append({"name": next(names), "kind": "cell", "users": []})
+    if ens != "base" and rng.random() < 0.6:
+        # a stock displacement move next to the user moves: its trials leave their own traces in the context
+        # (moving indices, remembered positions) that must not influence what the user moves are told afterwards
+        entries.append({"name": next(names), "kind": "disp", "users": []})
     rng.shuffle(entries)
     case["entries"] = entries
     trials = []
@@ -212,6 +216,12 @@ class ProtocolSuite(common.Suite):
                 top = CompositeMove([users[u] for u in e["users"]])
             elif e["kind"] == "exch":
                 top = ExchangeMove(np.arange(len(atoms)), operation=machine.ScriptedOp(streams, "disp"))
+                top.check_move = lambda *_a, **_k: streams.check()
+                top.max_attempts = 1
+            elif e["kind"] == "disp":
+                from quansino.moves.displacement import DisplacementMove
+
+                top = DisplacementMove(np.arange(len(atoms)), operation=machine.ScriptedOp(streams, "disp"))
                 top.check_move = lambda *_a, **_k: streams.check()
                 top.max_attempts = 1
             else:
